@@ -19,8 +19,8 @@ Proof.
 Qed.
 
 Lemma lex_no_eof : forall text ls,
-  no_nul text -> lex text = Some ls -> Forall (fun l => lk l <> K_Eof) ls.
-Proof. intros text ls N H. unfold lex in H. apply (lex_all_kinds _ _ _ _ H). exact N. Qed.
+  lex text = Some ls -> Forall (fun l => lk l <> K_Eof) ls.
+Proof. intros text ls H. unfold lex in H. apply (lex_all_kinds _ _ _ _ H). Qed.
 
 Lemma lex_boundaries : forall text ls,
   utf8_wf text = true -> lex text = Some ls ->
@@ -28,52 +28,6 @@ Lemma lex_boundaries : forall text ls,
 Proof.
   intros text ls W H. unfold lex in H.
   apply (lex_all_bounds _ _ [] text ls true (utf8_wf_ok _ W) H).
-Qed.
-
-(* ---- glyph-range splitting ---------------------------------------------------- *)
-
-Definition no_double_hyphen (txt : list byte) : Prop :=
-  forall i, ~ (nthb i txt = 45%N /\ nthb (S i) txt = 45%N).
-
-Lemma skipn_cons_nth : forall (l : list N) i, i < length l -> skipn i l = nth i l 0%N :: skipn (S i) l.
-Proof.
-  induction l as [|b r IH]; intros i Hi; [simpl in Hi; lia|].
-  destruct i; [reflexivity|]. simpl. apply IH. simpl in Hi. lia.
-Qed.
-
-Lemma split_lossless_without_double_hyphen : forall contains txt node,
-  no_double_hyphen txt -> try_split_range contains txt = Some node -> flatten node = txt.
-Proof.
-  intros contains txt node ND H. unfold try_split_range in H.
-  destruct (filter (split_ok contains txt) (seq 0 (length txt))) as [|idx [|j r]] eqn:F; try discriminate.
-  injection H as H; subst node.
-  assert (In idx (filter (split_ok contains txt) (seq 0 (length txt)))) as Hin by (rewrite F; left; reflexivity).
-  apply filter_In in Hin as [Hs Hok]. apply in_seq in Hs.
-  unfold split_ok in Hok. apply andb_true_iff in Hok as [Hok _]. apply andb_true_iff in Hok as [Hh _].
-  apply N.eqb_eq in Hh.
-  unfold mk_node. rewrite flatten_node. cbn [flatten_all flatten]. rewrite app_nil_r.
-  assert (L : idx < length txt) by lia.
-  rewrite (skipn_cons_nth txt idx L). unfold nthb in Hh. rewrite Hh. cbn [trim_hyphens].
-  replace (nbeq 45 45) with true by reflexivity.
-  assert (T : trim_hyphens (skipn (S idx) txt) = skipn (S idx) txt).
-  { destruct (skipn (S idx) txt) as [|c rest] eqn:Es; [reflexivity|]. cbn [trim_hyphens].
-    destruct (nbeq c 45) eqn:Ec; [|reflexivity]. exfalso. apply N.eqb_eq in Ec. subst c.
-    apply (ND idx). split; [exact Hh|].
-    destruct (Nat.lt_ge_cases (S idx) (length txt)) as [L2|G].
-    - pose proof (skipn_cons_nth txt (S idx) L2) as Q. rewrite Es in Q. injection Q as Q _.
-      unfold nthb. congruence.
-    - rewrite skipn_all2 in Es by lia. discriminate. }
-  rewrite T. cbn [app]. rewrite <- (firstn_skipn idx txt) at 3.
-  rewrite (skipn_cons_nth txt idx L), Hh. reflexivity.
-Qed.
-
-(* a glyph map is harmless when the names it is asked about have no "--" *)
-Lemma gm_lossless_if : forall contains,
-  (forall txt node, try_split_range contains txt = Some node -> no_double_hyphen txt) ->
-  gm_lossless (Some contains).
-Proof.
-  intros contains H c txt node E T. injection E as E; subst c.
-  eapply split_lossless_without_double_hyphen; eauto.
 Qed.
 
 (* ---- any sequence of primitive calls ----------------------------------------- *)
@@ -103,15 +57,15 @@ Proof.
   - intro T. eapply buf_total; eauto.
 Qed.
 
-(* the whole front end on text without NUL: lexer + any driver that stops at
-   at_eof, eats the trailing trivia and finishes the root *)
+(* the whole front end: lexer + any driver that stops at at_eof, eats the
+   trailing trivia and finishes the root *)
 Lemma front_end_lossless : forall gm text ops ls st0 st root,
-  gm_lossless gm -> no_nul text ->
+  gm_lossless gm ->
   lex text = Some ls -> parser_new gm text ls = Some st0 -> run gm text st0 ops = Some st ->
   at_eof st = true -> p_triv (b0 st) = [] -> sink_root (sk st) = Some root ->
   flatten root = text /\ wf_tree root.
 Proof.
-  intros gm text ops ls st0 st root G NN L N R E T S.
+  intros gm text ops ls st0 st root G L N R E T S.
   destruct (lex_total text) as (ls' & L' & Tl & _). rewrite L in L'. injection L' as L'; subst ls'.
   pose proof (run_good _ _ _ _ _ _ G N R) as Gd.
   split.
@@ -213,5 +167,60 @@ Proof.
     - eapply parser_new_safe; eauto. }
   destruct (err_range_bnd text ls T B st Gd S) as [[B1 _] [B2 L2]].
   unfold tok_start, tok_end in *. repeat split; try assumption; lia.
+Qed.
+
+(* ---- split_remap_current ------------------------------------------------------------ *)
+
+(* the split function's ranges: contiguous from 0, covering the token, cutting the
+   text on character boundaries *)
+Fixpoint parts_ok (text : list N) (base prev len : nat) (parts : list (nat * nat * N)) : Prop :=
+  match parts with
+  | [] => prev = len
+  | (a, b, _) :: t => a = prev /\ a <= b /\ bnd text (base + b) /\ parts_ok text base b len t
+  end.
+
+Lemma emit_parts_total : forall gm text base len parts prev s,
+  gm_lossless gm -> SinkInv text s -> bnd text (s_pos s) -> s_pos s = base + prev ->
+  parts_ok text base prev len parts ->
+  exists s', emit_parts gm text parts prev s = Some (len, s').
+Proof.
+  intros gm text base len parts. induction parts as [|[[a b] k] t IH]; intros prev s G I B P H.
+  - cbn in H. subst. eexists; reflexivity.
+  - cbn [parts_ok] in H. destruct H as (E & L & Bb & H). subst a. cbn [emit_parts].
+    rewrite Nat.eqb_refl. cbn [negb]. destruct (b <? prev) eqn:Q; [apply Nat.ltb_lt in Q; lia|].
+    assert (B2 : bnd text (s_pos s + (b - prev))) by (replace (s_pos s + (b - prev)) with (base + b) by lia; exact Bb).
+    destruct (sink_token_total gm text G k (b - prev) s B B2) as [s1 T]. rewrite T.
+    destruct (sink_token_inv gm text G _ _ _ _ I T) as (I1 & P1 & _).
+    apply IH; [exact G|exact I1|eapply (sink_token_bnd gm text G); eauto|lia|exact H].
+Qed.
+
+(* with the trivia eaten first, a well-formed split never panics *)
+Lemma split_total : forall gm text ops ls st0 st parts,
+  gm_lossless gm -> utf8_wf text = true -> lex text = Some ls ->
+  parser_new gm text ls = Some st0 -> run gm text st0 ops = Some st ->
+  parts_ok text (tok_start (b0 st)) 0 (ll (p_tok (b0 st))) parts ->
+  exists st', step gm text st (OSplit parts) = Some st'.
+Proof.
+  intros gm text ops ls st0 st parts G W L N R PO.
+  destruct (lex_total text) as (ls' & L' & T & _ & K). rewrite L in L'. injection L' as L'; subst ls'.
+  pose proof (lex_boundaries _ _ W L) as B.
+  pose proof (run_good _ _ _ _ _ _ G N R) as Gd.
+  assert (S : SafeInv text st).
+  { destruct (parser_new_good gm text G ls st0 N) as (B0 & I0 & _).
+    eapply (run_safe gm text ls G); [| |exact R].
+    - split; [exists []; exact B0|exact I0].
+    - eapply parser_new_safe; eauto. }
+  cbn [step]. unfold split_remap. destruct parts as [|p ps]; [eexists; reflexivity|].
+  destruct (eat_trivia_total gm text ls G T B st Gd S) as [st1 Et]. rewrite Et.
+  destruct Gd as [[c BI] I].
+  destruct (eat_trivia_inv gm text G _ _ _ _ _ _ BI I Et) as (BI1 & I1 & Tr & Tk & _).
+  assert (Ps : s_pos (sk st1) = tok_start (b0 st)).
+  { destruct BI1 as [_ S2 _ _ _ _ _ _ _ _]. destruct BI as [_ S2' Bs _ _ _ T0 _ _ _].
+    rewrite total_len_app in S2. unfold tok_start. lia. }
+  destruct (emit_parts_total gm text (tok_start (b0 st)) (ll (p_tok (b0 st))) (p :: ps) 0 (sk st1) G I1)
+    as [s E]; [eapply (eat_trivia_pos gm text G); [apply S|exact Et]|lia|exact PO|].
+  rewrite E, Tk, Nat.eqb_refl. cbn [negb].
+  destruct (advance_empty_total gm text (with_sink st1 s) Tr) as (st' & A & _).
+  exists st'. exact A.
 Qed.
 
